@@ -460,7 +460,7 @@ def mutations(text, rng, n):
     nl = len(lines)
     if nl == 0:
         return out
-    kinds = ['truncline', 'dot', 'delline', 'truncfile', 'escape', 'escape_cls', 'halfimport', 'truncline', 'dot', 'escape_nested', 'blankend']
+    kinds = ['truncline', 'dot', 'delline', 'truncfile', 'escape', 'escape_cls', 'halfimport', 'truncline', 'dot', 'escape_nested', 'blankend', 'lineend']
     tries = 0
     while len(out) < n and tries < n * 6:
         tries += 1
@@ -512,6 +512,17 @@ def mutations(text, rng, n):
                 ln = len(new) - 1
                 col = 4 + len(stmt)
             out.append((kind, '\n'.join(new), (ln, col)))
+        elif kind == 'lineend':
+            # the same (cut) buffer saved with other line endings: lone CR, CRLF, a mix (seeded C08-r7-1)
+            k = min(i, 60)
+            if '\r' in text or any('\n' in l for l in lines[:k + 1]):
+                continue
+            sep = rng.choice(['\r', '\r\n', None])
+            new = lines[:k + 1]
+            if not new[-1].strip():
+                continue
+            joined = ''.join(l + (sep or rng.choice(['\r', '\n', '\r\n'])) for l in new[:-1]) + new[-1]
+            out.append((kind, joined, (k + 1, rng.choice([len(new[-1]), len(new[-1]) // 2]))))
         elif kind == 'blankend':
             # Enter typed after a line at the end of the (cut) file: the last line is indentation only
             cand = [k for k in range(nl) if lines[k].rstrip().endswith(':') and not lines[k].lstrip().startswith('#')]
